@@ -96,9 +96,10 @@ def row_options(n_rows: int) -> list[tuple[int, ...]]:
 class Faulty:
     """Evaluator whose faults are decided by the chooser (one choice point per call)."""
 
-    def __init__(self, chooser: Chooser, *, reduced: bool = False) -> None:
+    def __init__(self, chooser: Chooser, *, reduced: bool = False, nan_shift: int = 0) -> None:
         self.chooser = chooser
         self.reduced = reduced
+        self.nan_shift = nan_shift
         self.fn = ensemble_fn()
         self.calls: list[dict[str, Any]] = []
         self.raised: Exception | None = None
@@ -131,7 +132,12 @@ class Faulty:
             values = self.fn(np.asarray(variables[i], dtype=np.float64), labels[i][0])
             objectives[i], constraints[i] = values[:2], values[2:]
         for i in failing:
-            objectives[i, (i % 2)] = np.nan
+            # the column carrying the NaN rotates over objective 0, objective 1 and the constraint
+            column = (i + self.nan_shift) % 3
+            if column < 2:
+                objectives[i, column] = np.nan
+            else:
+                constraints[i, 0] = np.nan
         return EvaluatorResult(objectives=objectives, constraints=constraints)
 
 
@@ -250,7 +256,7 @@ def execute(case: dict[str, Any], chooser: Chooser) -> dict[str, Any]:
     config, transforms, emap, fmap = build_config(case)
     driver = case["driver"]
     manager, _ = make_manager()
-    evaluator = Faulty(chooser, reduced=driver in ("slsqp", "de"))
+    evaluator = Faulty(chooser, reduced=driver in ("slsqp", "de"), nan_shift=case.get("nan_shift", 0))
     context = OptimizerContext(evaluator=evaluator, plugin_manager=manager)
     counts = {"start": 0, "finished": 0, "function_results": 0}
 
@@ -412,11 +418,12 @@ def shards(tier: str, seed: int) -> list[dict[str, Any]]:
 def variants(shard: dict[str, Any]) -> list[dict[str, Any]]:
     driver = shard["driver"]
     base = {k: shard[k] for k in ("filter", "estimator", "transforms", "rms", "driver")}
+    shifts = (0, 1, 2) if shard["tier"] == "thorough" else (0,)
     if driver == "scripted":
-        return [{**base, "max_functions": m, "allow_nan": a} for m in (None, 1, 2, 3) for a in (False, True)]
+        return [{**base, "max_functions": m, "allow_nan": a, "nan_shift": s} for m in (None, 1, 2, 3) for a in (False, True) for s in shifts]
     if driver == "evaluator":
-        return [{**base, "vectors": n} for n in (1, 2, 3)]
-    return [{**base, "max_functions": m} for m in (None, 2, 5)]
+        return [{**base, "vectors": n, "nan_shift": s} for n in (1, 2, 3) for s in shifts]
+    return [{**base, "max_functions": m, "nan_shift": s} for m in (None, 2, 5) for s in shifts]
 
 
 def run_shard(shard: dict[str, Any]) -> core.ShardResult:
